@@ -1,3 +1,268 @@
 import PyaModel.Proofs.C13
+/-!
+# Props/C13 — static and runtime views of declarations agree
+
+Property theorems only. Model (Core/Annot.lean, Core/AnnotRoutes.lean): `astEval` = the AST / string
+route (`type_from_ast`, `_Visitor`, `_type_from_subscripted_value`), `rtEval` = the runtime-object
+route (`_type_from_runtime`, `_value_of_origin_args`), `visEval` = an annotation in checked source
+(`NameCheckVisitor.value_of_annotation`), `fromDef` = `compute_parameters` on the def node,
+`fromRuntime` = `ArgSpecCache.from_signature` on the function object. Spec parameters
+(Spec/AnnotSpec.lean): `tnorm` = what `typing` does to the expression, `inspectOf` = what
+`inspect.signature` reports; both validated against the real modules on every run.
+All evaluators return the value, the number of errors shown and the `UnpackedValue` flag; `none` =
+the route raises.
+-/
 namespace Pya.C13
+
+/-! ## 1. the string route -/
+
+/-- **Quoting an annotation switches to the AST route, wherever the string is met (full).** For every
+expression `e` and either `allow_unpack`: the AST route on the string `'e'` is the AST route on `e`;
+the runtime route handed the string `'e'` (`type_from_runtime("e")`, a `str`/`ForwardRef` argument
+inside a generic) is the AST route on `e`; a quoted annotation in checked source is the AST route
+on `e`. -/
+theorem string_route (e : AnnExpr) (au : Bool) :
+    astEval au (.str e) = astEval au e ∧ rtEval au (tnorm (.str e)) = astEval au e ∧
+    visEval au (.str e) = astEval au e := by
+  simp [astEval, rtEval, tnorm, visEval]
+
+/-! ## 2. annotations in checked source -/
+
+/-- The full statement for the in-source route (not asserted: false on `starUnpack`). -/
+def VisitorAgrees (e : AnnExpr) : Prop := ∀ au, visEval au e = rtEval au (tnorm e)
+
+/-- **An unquoted annotation in checked source means what the runtime object means (partial:
+outside `starUnpack`).** For every expression without a PEP 646 starred member the visitor's
+reading equals the runtime route on the object `typing` builds — for every expression of the
+syntax, supported or not, with the same errors. -/
+theorem visitor_route_partial (e : AnnExpr) (hD : D13_starUnpack e = false) : VisitorAgrees e :=
+  fun au => vis_eq_rt e au (hasStar_starU e hD)
+
+/-! ## 3. the AST / string route against the runtime route -/
+
+/-- The full statement (not asserted: false on `starUnpack`, `finalQuoted`, `typingDedup`): the AST
+route on `e` computes what the runtime route computes on the object `typing` builds for `e` with
+every `Optional[X]` written `Union[None, X]` — i.e. the two routes agree exactly, except that the
+AST route unites `None` first where `typing` puts it last (member order only). -/
+def RoutesAgree (e : AnnExpr) : Prop := ∀ au, astEval au e = rtEval au (tnorm (swapOpt e))
+
+/-- **AST route = runtime route (partial).** For every supported expression (any depth, any
+nesting of classes, None, Any, NewTypes, bare aliases, old/new generics, tuple forms with
+`Unpack[...]`, Literal, `type[]`, Annotated, Optional / Union / `|`, forward-reference strings)
+outside the classes `starUnpack`, `finalQuoted` and the representation class `typingDedup`, the
+two routes yield the same value, the same number of errors and the same `Unpack` flag. -/
+theorem routes_agree_partial (e : AnnExpr) (hS : Supported e = true)
+    (h1 : D13_starUnpack e = false) (h2 : D13_finalQuoted e = false)
+    (h3 : R13_typingDedup (swapOpt e) = false) : RoutesAgree e :=
+  agree_main e (supp_mono e hS) (hasStar_starU e h1) h2 h3
+
+/-- **All readings coincide exactly when no `Optional[...]` is written (partial).** For a supported
+expression without `Optional[...]` outside the exception classes: AST route = string route =
+runtime route = unquoted in-source = quoted in-source. -/
+theorem all_routes_agree_partial (e : AnnExpr) (hS : Supported e = true)
+    (h1 : D13_starUnpack e = false) (h2 : D13_finalQuoted e = false)
+    (h3 : R13_typingDedup e = false) (h4 : e.hasOpt = false) (au : Bool) :
+    astEval au e = rtEval au (tnorm e) ∧ astEval au (.str e) = rtEval au (tnorm e) ∧
+    visEval au e = rtEval au (tnorm e) ∧ visEval au (.str e) = rtEval au (tnorm e) := by
+  have hsw := swapOpt_id e h4
+  have h := routes_agree_partial e hS h1 h2 (by rw [hsw]; exact h3) au
+  rw [hsw] at h
+  exact ⟨h, by simpa [astEval] using h, visitor_route_partial e h1 au, by simpa [visEval] using h⟩
+
+/-- **The same with purely syntactic hypotheses (partial).** The representation class is empty
+wherever `typing` has nothing to normalise: if every `Literal[...]` of `e` has distinct arguments
+and every union of `e` (with `Optional[X]` read as `Union[None, X]`) has at least two arguments,
+none of them a union, no two of them `==`, then — outside `starUnpack` and `finalQuoted` — the
+routes agree. -/
+theorem routes_agree_plain_partial (e : AnnExpr) (hS : Supported e = true)
+    (h1 : D13_starUnpack e = false) (h2 : D13_finalQuoted e = false)
+    (h3 : plainUnions (swapOpt e) = true) : RoutesAgree e :=
+  routes_agree_partial e hS h1 h2 (plain_R13 _ h3)
+
+/-! ### witnesses: the full statements are false in each class -/
+
+/-- `tuple[int, *tuple[str, ...]]` -/
+def wStar : AnnExpr := .tup false [.cls C.int, .star (.tupV false (.cls C.str))]
+/-- `Final[int]` -/
+def wFinal : AnnExpr := .final (.cls C.int)
+/-- `Union[List[int | str], List[Union[str, int]]]` -/
+def wDedup : AnnExpr :=
+  .union [.gen true C.list [.bor (.cls C.int) (.cls C.str)], .gen true C.list [.union [.cls C.str, .cls C.int]]]
+
+/-- `starUnpack`: the AST route raises, the runtime route returns the nested tuple. -/
+theorem witness_starUnpack_routes : ¬ RoutesAgree wStar := by
+  intro h
+  have := congrArg Option.isSome (h false)
+  revert this
+  decide
+
+/-- `starUnpack`: in checked source the annotation is `tuple[Any]`, the runtime route gives
+`tuple[int, tuple[str, ...]]` (neither is the intended `tuple[int, *tuple[str, ...]]`). -/
+theorem witness_starUnpack_visitor : ¬ VisitorAgrees wStar := by
+  intro h
+  have := congrArg (fun r => r.map fun x => match x.ty with | .seq _ ms => ms.length | _ => 0) (h false)
+  revert this
+  decide
+
+/-- `finalQuoted`: the AST route shows an error and yields `Any`, the runtime route yields `int`. -/
+theorem witness_finalQuoted : ¬ RoutesAgree wFinal := by
+  intro h
+  have := congrArg (fun r => r.map (·.errs)) (h false)
+  revert this
+  decide
+
+/-- `typingDedup` (representation only): `typing` keeps one of the two `==` arguments, so the
+runtime route yields `list[int | str]`; the AST route unites both, `unite_values` compares hashes
+(order-sensitive on unions) and keeps `list[int | str] | list[str | int]`. -/
+theorem witness_typingDedup : ¬ RoutesAgree wDedup := by
+  intro h
+  have := congrArg (fun r => r.map fun x => match x.ty with | .union ts => ts.length | _ => 1) (h false)
+  revert this
+  decide +kernel
+
+example : D13_starUnpack wStar = true ∧ D13_finalQuoted wFinal = true := by decide
+example : R13_typingDedup (swapOpt wDedup) = true := by decide +kernel
+
+/-! ### non-vacuity: the hypotheses are met by a non-trivial expression -/
+
+/-- `Dict[str, Optional[Tuple[int, Unpack[tuple[str, ...]]]]] | Annotated[list['int'], 'm'] | type[A | None]
+    | Literal[1, 1, True]` (class 23 = `A`) -/
+def exAnn : AnnExpr :=
+  .bor (.bor (.bor
+    (.gen true C.dict [.cls C.str, .opt (.tup true [.cls C.int, .unpack (.tupV false (.cls C.str))])])
+    (.ann (.gen false C.list [.str (.cls C.int)]) 1))
+    (.typ false (.bor (.cls 23) .none)))
+    (.lit [.int 1, .int 1, .bool true])
+
+example : Supported exAnn = true ∧ D13_starUnpack exAnn = false ∧ D13_finalQuoted exAnn = false := by decide
+example : R13_typingDedup (swapOpt exAnn) = false := by decide +kernel
+/-- `Dict[str, Optional[int]] | list['int'] | Literal[1, True]` meets the syntactic condition -/
+example : plainUnions (swapOpt (.bor (.bor (.gen true C.dict [.cls C.str, .opt (.cls C.int)])
+    (.gen false C.list [.str (.cls C.int)])) (.lit [.int 1, .bool true]))) = false := by decide +kernel
+example : plainUnions (swapOpt (.union [.gen true C.dict [.cls C.str, .opt (.cls C.int)],
+    .gen false C.list [.str (.cls C.int)], .lit [.int 1, .bool true]])) = true := by decide +kernel
+/-- … and there the routes produce a non-trivial value (a six-member union). -/
+example : (astEval false exAnn).map (fun r => match r.ty with | .union ts => ts.length | _ => 1) = some 6 := by
+  decide +kernel
+
+/-! ## 4. def headers: parameters from the def node vs from the function object -/
+
+/-- The full statement (not asserted: false on `dunderPosOnly`, `unannotated`, and on the annotation
+classes): both routes yield a signature, and the two have the same parameter names, kinds, default
+presence (and literal), annotation values, error counts, and return annotation. -/
+def ParamsAgree (d : DefArgs) : Prop := (fromDef d).map SigOut.core = (fromRuntime d).map SigOut.core
+
+/-- **Signature of the def node = signature of the function object (partial).** For every header
+CPython compiles (any number of parameters of every kind, any default pattern), not a method,
+without `from __future__ import annotations`, outside `dunderPosOnly` and the representation class
+`unannotated`, whose annotations have no PEP 646 starred member outside strings (no further
+restriction on the annotations): `compute_parameters` (list concatenation + `zip_longest`) and
+`from_signature` over `inspect.signature` (CPython's index-based alignment) produce the same names,
+kinds, defaults, annotation values and return type. -/
+theorem params_agree_partial (d : DefArgs) (hwf : d.WF = true) (hm : d.methodOf = none)
+    (hfut : d.future = false) (hD : D13_dunderPosOnly d = false) (hR : R13_unannotated d = false)
+    (hstar : d.annAll (fun e => !e.starU) = true) : ParamsAgree d := by
+  simp only [DefArgs.annAll, Bool.and_eq_true, List.all_eq_true] at hstar
+  refine params_agree_core d hwf hm hD hR (fun a ha e he => ?_) (fun e he => ?_)
+  · rw [hfut]
+    have := hstar.1 a ha
+    simp only [PArg.annAll, he] at this
+    exact annOK_now e (by simpa using this)
+  · rw [hfut]
+    have := hstar.2
+    simp only [he] at this
+    exact annOK_now e (by simpa using this)
+
+/-- an annotation both routes read alike even when the function object only carries its text -/
+def futureOK (e : AnnExpr) : Bool :=
+  Supported e && !D13_starUnpack e && !D13_finalQuoted e && !R13_typingDedup e && !e.hasOpt
+
+/-- **The same under `from __future__ import annotations` (partial).** The function object then
+carries the annotation *text*, which the inspect route reads by the AST route; the signatures agree
+when every annotation is supported, outside `starUnpack` / `finalQuoted` / `typingDedup`, and has no
+`Optional[...]` (whose member order the AST route reverses). -/
+theorem params_agree_future_partial (d : DefArgs) (hwf : d.WF = true) (hm : d.methodOf = none)
+    (hfut : d.future = true) (hD : D13_dunderPosOnly d = false) (hR : R13_unannotated d = false)
+    (hann : d.annAll futureOK = true) : ParamsAgree d := by
+  simp only [DefArgs.annAll, Bool.and_eq_true, List.all_eq_true] at hann
+  have key : ∀ e, futureOK e = true → AnnOK true e := by
+    intro e he
+    simp only [futureOK, Bool.and_eq_true, Bool.not_eq_true'] at he
+    obtain ⟨⟨⟨⟨h1, h2⟩, h3⟩, h4⟩, h5⟩ := he
+    exact annOK_future e (supp_mono e h1) (hasStar_starU e h2) h3 h4 h5
+  refine params_agree_core d hwf hm hD hR (fun a ha e he => ?_) (fun e he => ?_)
+  · rw [hfut]
+    have := hann.1 a ha
+    simp only [PArg.annAll, he] at this
+    exact key e this
+  · rw [hfut]
+    have := hann.2
+    simp only [he] at this
+    exact key e this
+
+/-! ## 5. consequently: a call is judged alike next to the def and from an importing module -/
+
+/-- **Calls are judged alike (partial; corollary of `ParamsAgree`).** Whenever the two signature
+routes agree on a header, every call shape (any positionals, `*args`, keywords, `**kwargs`) binds to
+the same parameters — or is rejected — under both signatures, against the same declared types. -/
+theorem call_verdict_agree (d : DefArgs) (h : ParamsAgree d) (args : List Arg) :
+    (fromDef d).map (fun s => callView s args) = (fromRuntime d).map (fun s => callView s args) := by
+  unfold ParamsAgree at h
+  cases h1 : fromDef d <;> cases h2 : fromRuntime d <;> simp only [h1, h2, Option.map_none, Option.map_some] at h ⊢
+  · simp at h
+  · simp at h
+  · rename_i s t
+    have hc : s.core = t.core := by simpa using h
+    obtain ⟨hb, ha, hr⟩ := toBindSig_of_core hc
+    simp [callView, hb, ha, hr]
+
+/-! ### witnesses -/
+
+def noAnn (n : String) : PArg := ⟨n, none⟩
+def hdr0 : DefArgs :=
+  { posonly := [], args := [], vararg := none, kwonly := [], kwDefaults := [], kwarg := none, defaults := [],
+    returns := none, methodOf := none, future := false }
+/-- `def f(__x): ...` -/
+def wDunder : DefArgs := { hdr0 with args := [noAnn "__x"] }
+/-- `def f(x=1): ...` -/
+def wUnann : DefArgs := { hdr0 with args := [noAnn "x"], defaults := [.lit (.int 1)] }
+
+/-- `dunderPosOnly`: positional-or-keyword from the def node, positional-only from the function object. -/
+theorem witness_dunderPosOnly : ¬ ParamsAgree wDunder := by
+  intro h
+  have := congrArg (fun r => r.map fun s => s.1.map fun p => p.2.1) h
+  revert this
+  decide
+
+/-- `dunderPosOnly`, the call `f(__x=1)`: bound next to the def, `incompatible_call` from the
+importing module. -/
+theorem witness_dunderPosOnly_call :
+    (fromDef wDunder).map (fun s => (pyaCall (toBindSig s) [Arg.kw "__x"]).isSome) = some true ∧
+    (fromRuntime wDunder).map (fun s => (pyaCall (toBindSig s) [Arg.kw "__x"]).isSome) = some false := by
+  decide
+
+/-- `unannotated` (representation only): `Any | Literal[1]` from the def node, `Any` from the function object. -/
+theorem witness_unannotated : ¬ ParamsAgree wUnann := by
+  intro h
+  have := congrArg (fun r => r.map fun s => s.1.map fun p => match p.2.2.2.1 with | .any => true | _ => false) h
+  revert this
+  decide +kernel
+
+/-! ### non-vacuity -/
+
+/-- `def f(a: int, /, b: Optional[str] = None, *args: int, c: 'bytes', d: Literal[1] = 1, **kw: list[int]) -> tuple[int, ...]` -/
+def exHdr : DefArgs :=
+  { posonly := [⟨"a", some (.cls C.int)⟩], args := [⟨"b", some (.opt (.cls C.str))⟩],
+    vararg := some ⟨"args", some (.cls C.int)⟩,
+    kwonly := [⟨"c", some (.str (.cls C.bytes))⟩, ⟨"d", some (.lit [.int 1])⟩],
+    kwDefaults := [none, some (.lit (.int 1))], kwarg := some ⟨"kw", some (.gen false C.list [.cls C.int])⟩,
+    defaults := [.lit .none], returns := some (.tupV false (.cls C.int)), methodOf := none, future := false }
+
+example : exHdr.WF = true ∧ D13_dunderPosOnly exHdr = false ∧ R13_unannotated exHdr = false ∧
+    exHdr.annAll (fun e => !e.starU) = true := by decide
+example : (fromDef exHdr).map (fun s => s.params.length) = some 6 := by decide +kernel
+/-- a header under `from __future__ import annotations` meeting the hypotheses -/
+example : ({ exHdr with future := true, args := [⟨"b", some (.bor (.cls C.str) .none)⟩] } : DefArgs).annAll futureOK = true := by
+  decide +kernel
+
 end Pya.C13
